@@ -737,6 +737,13 @@ class Sym:
             if caps is not None and idx is not None and idx < len(caps):
                 return ("capture", idx, caps[idx])
             return ("capture", idx, ("unknown", "capture"))
+        if s[0] == "phi":
+            alts = tuple(self._field(x, name, idx) for x in s[1])
+            uniq = []
+            for a in alts:
+                if a not in uniq:
+                    uniq.append(a)
+            return uniq[0] if len(uniq) == 1 else ("phi", tuple(uniq))
         if s[0] == "agg" and s[3] is not None:
             # field of a locally built aggregate
             fields = s[4]
